@@ -1312,3 +1312,145 @@ Proof.
       eapply positions_distinct; [exact Hq2|rewrite Hq1; exact Hrd|exact Heq].
     + rewrite nat_N_Z. lia.
 Qed.
+
+(* ================================================================ 10. text level: dumps / loads *)
+Definition no_nl (l : str) : Prop := smem 10 l = false.
+
+Lemma split_nl_aux_line : forall l rest cur, no_nl l ->
+  split_nl_aux (l ++ 10 :: rest) cur = (rev cur ++ l) :: split_nl_aux rest [].
+Proof.
+  induction l as [|c l IH]; intros rest cur H; cbn [app split_nl_aux].
+  - change (10 =? 10) with true. cbv iota. rewrite app_nil_r. reflexivity.
+  - unfold no_nl in H. rewrite smem_cons in H. apply orb_false_iff in H. destruct H as [H1 H2].
+    rewrite Z.eqb_sym, H1. rewrite (IH rest (c :: cur) H2). cbn [rev]. rewrite <- app_assoc. reflexivity.
+Qed.
+
+Lemma split_dumps : forall ls, Forall no_nl ls -> split_nl (dumps_text ls) = ls ++ [[]].
+Proof.
+  intros ls H. unfold split_nl, dumps_text. induction H as [|l ls Hl Hls IH]; [reflexivity|].
+  cbn [map concat]. rewrite (last_is_no 10 l Hl). rewrite <- app_assoc. cbn [app].
+  rewrite (split_nl_aux_line l _ [] Hl). cbn [rev app]. rewrite IH. reflexivity.
+Qed.
+
+Lemma no_nl_app : forall a b, no_nl a -> no_nl b -> no_nl (a ++ b).
+Proof. intros a b Ha Hb. unfold no_nl in *. rewrite smem_app, Ha, Hb. reflexivity. Qed.
+
+Lemma nonspace_no_nl : forall s, nonspace s = true -> no_nl s.
+Proof.
+  intros s H. unfold no_nl, smem. destruct (existsb (Z.eqb 10) s) eqn:He; [|reflexivity].
+  apply existsb_exists in He. destruct He as [c [Hc Heq]]. apply Z.eqb_eq in Heq. subst c.
+  unfold nonspace in H. rewrite forallb_forall in H. specialize (H 10 Hc). discriminate.
+Qed.
+
+Lemma join_sp_no_nl : forall l, Forall nick_good l -> no_nl (join_sp l).
+Proof.
+  intros l H. induction H as [|n l [_ Hn] Hl IH]; [reflexivity|].
+  destruct (nick_no35 n Hn) as [_ [_ H10]].
+  destruct l as [|m l']; [exact H10|].
+  change (join_sp (n :: m :: l')) with (n ++ 32 :: join_sp (m :: l')). apply no_nl_app; [exact H10|].
+  unfold no_nl. rewrite smem_cons. exact IH.
+Qed.
+
+Lemma ballot_lines_no_nl : forall E cs ns votes bl, length cs = length ns -> NoDup ns -> Forall nick_good ns ->
+  forallb (fun rw => forallb (fun c => pos_mem c (map cid cs)) (fst rw)) votes = true ->
+  forallb (fun rw => stv_weight_ok E (snd rw)) votes = true ->
+  ballot_lines E false votes (map cid cs) ns = Some bl -> Forall no_nl bl.
+Proof.
+  intros E cs ns votes bl Hl Hnd Hg. revert bl. induction votes as [|[r w] t IH]; intros bl Hin Hw Hbl; cbn [ballot_lines] in Hbl.
+  - inversion Hbl. constructor.
+  - cbn [forallb fst snd] in Hin, Hw. apply andb_true_iff in Hin. destruct Hin as [Hin1 Hin2].
+    apply andb_true_iff in Hw. destruct Hw as [Hw1 Hw2].
+    destruct (ballot_line E false r w (map cid cs) ns) as [line|] eqn:Hline; [|discriminate].
+    destruct (ballot_lines E false t (map cid cs) ns) as [ls|] eqn:Hls; [|discriminate]. inversion Hbl; subst bl.
+    constructor; [|apply IH; [exact Hin2|exact Hw2|reflexivity]].
+    destruct (ranking_lookup cs ns r Hl Hnd Hg Hin1) as [l [ps [R1 [_ [_ [R4 _]]]]]].
+    unfold ballot_line in Hline. rewrite R1 in Hline. cbv zeta in Hline. inversion Hline.
+    destruct (parse_multiplier_written E w Hw1) as [_ [_ Hns]].
+    apply no_nl_app; [|apply join_sp_no_nl; exact R4].
+    destruct (_ || _ || _); [|reflexivity]. apply no_nl_app; [apply nonspace_no_nl; exact Hns|reflexivity].
+Qed.
+
+Lemma zip_lines_no_nl : forall cs ns, Forall cname_ok cs -> Forall nick_good ns -> Forall no_nl (zip_lines cs ns).
+Proof.
+  induction cs as [|c cs IH]; intros ns Hc Hn; destruct ns as [|n ns]; try constructor.
+  - inversion Hc as [|? ? Hc1 _]; subst. inversion Hn as [|? ? [_ Hn1] _]; subst.
+    destruct (name_ok_parts _ Hc1) as [_ [_ [H10 _]]]. destruct (nick_no35 n Hn1) as [_ [_ Hn10]].
+    unfold cline. apply no_nl_app; [destruct (cwd c); reflexivity|].
+    unfold no_nl. rewrite smem_cons. change (10 =? 61) with false. cbn [orb]. apply no_nl_app; [exact Hn10|].
+    unfold no_nl. rewrite smem_cons. exact H10.
+  - inversion Hc; inversion Hn; subst. apply IH; assumption.
+Qed.
+
+Lemma sys_kvs_no_nl : forall name fixed tie q m seats, strs_mem q supported_quotas = true ->
+  match name with Some t => text_ok t | None => true end = true ->
+  Forall no_nl (map kvline (sys_kvs name fixed tie q m seats)).
+Proof.
+  intros name fixed tie q m seats Hq Hname.
+  assert (Hz : forall k z, no_nl k -> no_nl (kvline (k, z_str z))).
+  { intros k z Hk. unfold kvline. cbn [fst snd]. apply no_nl_app; [exact Hk|].
+    unfold no_nl. rewrite smem_cons. destruct (zchars_props _ (z_str_chars z)) as [_ [_ [H10 _]]]. exact H10. }
+  unfold sys_kvs. rewrite !map_app. repeat (apply Forall_app; split).
+  - destruct name as [t|]; constructor; [|constructor]. unfold kvline. cbn [fst snd].
+    apply no_nl_app; [reflexivity|]. unfold no_nl. rewrite smem_cons.
+    unfold text_ok in Hname. apply andb_true_iff in Hname. destruct Hname as [H _]. apply andb_true_iff in H. destruct H as [_ H].
+    apply negb_true_iff in H. exact H.
+  - destruct fixed; constructor; [|constructor]. apply Hz. reflexivity.
+  - constructor; [reflexivity|]. constructor; [|constructor]. destruct (supported_cases q Hq); subst q; reflexivity.
+  - destruct m; constructor; [|constructor]. reflexivity.
+  - destruct tie as [[n|]|]; cbn [rnd_of map]; [constructor; [apply Hz; reflexivity|constructor]|constructor; [reflexivity|constructor]|constructor].
+  - destruct seats; constructor; [|constructor]. apply Hz. reflexivity.
+Qed.
+
+(* the round trip through the text: loads(dumps(...)) *)
+Theorem stv_roundtrip_text : forall E e, stv_wf E e = true ->
+  exists x ls, stv_expected E e = Some x /\ stv_dump_lines E false e = WOk ls /\
+               forall bl, stv_loads E false bl (dumps_text ls) = Ok x.
+Proof.
+  intros E e Hwf. destruct (stv_roundtrip E e Hwf) as [x [ls [Hx [Hd Hl]]]]. exists x, ls. split; [exact Hx|split; [exact Hd|]].
+  intros bl. unfold stv_loads. rewrite split_dumps; [apply Hl|].
+  (* no written line contains a line feed *)
+  clear Hl Hx x. destruct e as [votes sys cs seats om]. unfold stv_wf in Hwf. cbn [e_votes e_system e_cands e_seats e_output_method] in Hwf.
+  apply andb_true_iff in Hwf. destruct Hwf as [Hwf Hsys]. apply andb_true_iff in Hwf. destruct Hwf as [Hwf Hom].
+  apply andb_true_iff in Hwf. destruct Hwf as [Hwf Hnames]. apply andb_true_iff in Hwf. destruct Hwf as [Hwf Hw].
+  apply andb_true_iff in Hwf. destruct Hwf as [Hwf Hrd]. apply andb_true_iff in Hwf. destruct Hwf as [Hids Hin].
+  subst om.
+  change (map (fun c : positive * str * bool => let (y, _) := c in let (i, _) := y in i) cs) with (map cid cs) in *.
+  pose proof (pos_nodup_NoDup _ Hids) as Hnd_ids.
+  set (names := map (fun c : cand => match c with (_, nm, _) => nm end) cs).
+  assert (Hnames2 : Forall cname_ok cs /\ Forall (fun nm => forallb nick_char_ok (name_to_initials E nm) = true) names).
+  { subst names. clear - Hnames. induction cs as [|[[i nm] w] t IH]; [split; constructor|].
+    cbn [forallb] in Hnames. apply andb_true_iff in Hnames. destruct Hnames as [H1 H2]. apply andb_true_iff in H1. destruct H1 as [H1a H1b].
+    destruct (IH H2) as [I1 I2]. split; constructor; assumption. }
+  destruct Hnames2 as [Hcn Hini].
+  destruct (candidate_nicks_good E names Hini) as [Hlen [Hnd Hg]].
+  set (ns := candidate_nicks E names) in *.
+  assert (Hl : length cs = length ns) by (rewrite Hlen; subst names; rewrite map_length; reflexivity).
+  assert (Hshape : exists name x, (sys = SysVS name x \/ (sys = SysEv x /\ name = None)) /\ ev_ok x seats = true /\
+                                  match name with Some t => text_ok t | None => true end = true).
+  { destruct sys as [|name x|x]; [discriminate| |].
+    - apply andb_true_iff in Hsys. destruct Hsys as [H1 H2]. exists name, x. split; [left; reflexivity|split; assumption].
+    - exists None, x. split; [right; split; reflexivity|split; [exact Hsys|reflexivity]]. }
+  destruct Hshape as [name [x [Hsysx [Hevok Hname]]]].
+  destruct (ev_ok_shape x seats Hevok) as [fixed [tie [q [m [Hx [Hq [Htie Hfs]]]]]]]. subst x.
+  assert (Hds : option_map (fun sl => sl ++ match seats with Some n => [kv "seats" (z_str n)] | None => [] end)
+                           (dump_system false true sys) = Some (map kvline (sys_kvs name fixed tie q m seats))).
+  { destruct Hsysx as [Hs|[Hs Hn]]; subst sys; [apply dump_system_shape; exact Hq|subst name; apply dump_system_shape_ev; exact Hq]. }
+  unfold stv_dump_lines, dump_ballots in Hd. cbn [e_system e_output_method e_votes e_cands e_seats] in Hd.
+  rewrite (uniq_cands_id cs [] Hnd_ids) in Hd by (intros c _ []).
+  change (map (fun c : positive * str * bool => let (y, _) := c in let (i, _) := y in i) cs) with (map cid cs) in Hd.
+  change (candidate_nicks E (map (fun c : positive * str * bool => let (y, _) := c in let (_, nm) := y in nm) cs)) with ns in Hd.
+  destruct (ballot_lines E false votes (map cid cs) ns) as [bl'|] eqn:Hbl.
+  2:{ destruct Hsysx as [Hs|[Hs Hn]]; subst sys; cbv iota in Hd; destruct (dump_system false true _); discriminate. }
+  assert (Hzip : map (fun c => cand_line c (map cid cs) ns) cs = zip_lines cs ns) by exact (cand_lines_zip cs ns [] [] Hl eq_refl Hnd_ids).
+  rewrite Hzip in Hd.
+  destruct (dump_system false true sys) as [sl|] eqn:Hsl; [|discriminate]. cbn [option_map] in Hds. inversion Hds as [Hds']. clear Hds.
+  assert (Hls : ls = (sl ++ match seats with Some n => [kv "seats" (z_str n)] | None => [] end)
+                     ++ zip_lines cs ns ++ kv "ballots" (n_str (N.of_nat (length votes))) :: bl' ++ [s_end]).
+  { destruct Hsysx as [Hs|[Hs Hn]]; subst sys; cbv iota in Hd; rewrite Hsl in Hd; inversion Hd; rewrite <- app_assoc; reflexivity. }
+  rewrite Hls, Hds'.
+  apply Forall_app. split; [apply sys_kvs_no_nl; assumption|].
+  apply Forall_app. split; [apply zip_lines_no_nl; assumption|].
+  constructor.
+  - unfold kv. apply no_nl_app; [reflexivity|]. unfold no_nl. rewrite smem_cons. apply digits_no; [apply n_str_digits|reflexivity].
+  - apply Forall_app. split; [eapply ballot_lines_no_nl; eauto|constructor; [reflexivity|constructor]].
+Qed.
